@@ -214,6 +214,14 @@ fn handle(req: &Value, insts: &mut HashMap<String, vh::Config>) -> Value {
             resp.insert("orig_map_used".into(), had_orig.into());
             resp.insert("metrics".into(), serde_json::to_value(&metrics).unwrap_or(Value::Null));
             resp.insert("literals".into(), serde_json::to_value(&literals).unwrap_or(Value::Null));
+            if want(req, "out_comments") && !content.is_empty() {
+                let r = catch_unwind(AssertUnwindSafe(|| vh::parse_js_comments(content.clone(), &file)));
+                let v = match r {
+                    Ok(Ok(texts)) => Value::Array(texts.into_iter().map(Value::String).collect()),
+                    _ => Value::Null,
+                };
+                resp.insert("out_comments".into(), v);
+            }
             if want(req, "out_ast") && !content.is_empty() {
                 let (ast, err) = parse_to_json(&content, &file);
                 resp.insert("out_ast".into(), ast.unwrap_or(Value::Null));
